@@ -42,6 +42,12 @@ pub struct Case {
     pub initial: Vec<RegSpec>,
     pub fork_depth: u8,
     pub events: Vec<Ev>,
+    /// 0: nothing; 1 / 2: before event `bulk_at`, more than 1000 headers / transactions (mostly non-existent hashes) are
+    /// requested at once, so that one fetch round needs several GetBlocksProof / GetTransactionsProof messages
+    #[serde(default)]
+    pub bulk: u8,
+    #[serde(default)]
+    pub bulk_at: u8,
 }
 
 pub struct C16;
@@ -71,6 +77,7 @@ struct Track {
     last: Option<St>,
     missing_reported: bool,
     is_tx: bool,
+    bulk: bool,
 }
 
 fn find_block<'a>(chains: &'a [Chain], h: &Byte32) -> Option<&'a BlockView> {
@@ -120,8 +127,8 @@ impl Property for C16 {
             1 => Just(Ev::SwitchBranch),
             2 => (1u8..20).prop_map(Ev::Drain),
         ];
-        (chain_params(maxlen), net_params(), prop::collection::vec(reg_spec(), 0..3), 1u8..4, prop::collection::vec(ev, 1..50))
-            .prop_map(|(mut chain, mut net, mut initial, fork_depth, events)| {
+        (chain_params(maxlen), net_params(), prop::collection::vec(reg_spec(), 0..3), 1u8..4, prop::collection::vec(ev, 1..50), prop_oneof![12 => Just(0u8), 1 => Just(1u8), 1 => Just(2u8)], any::<u8>())
+            .prop_map(|(mut chain, mut net, mut initial, fork_depth, events, bulk, bulk_at)| {
                 chain.density = chain.density.max(60);
                 chain.len = chain.len.max(12);
                 net.last_n = 3; // 10
@@ -129,7 +136,7 @@ impl Property for C16 {
                 for r in initial.iter_mut() {
                     r.start_kind = r.start_kind.min(1);
                 }
-                Case { chain, net, initial, fork_depth, events }
+                Case { chain, net, initial, fork_depth, events, bulk, bulk_at }
             })
             .boxed()
     }
@@ -224,6 +231,28 @@ fn run_inner(case: &Case, obs: &mut Obs) -> Result<(), Failure> {
             }
         };
         for (step, ev) in case.events.iter().enumerate() {
+            if case.bulk != 0 && step == case.bulk_at as usize % case.events.len() {
+                let n = 1001 + (case.chain.seed % 40) as usize;
+                let is_tx = case.bulk == 2;
+                obs.label(if is_tx { "bulk-fetch-transactions(>1000)" } else { "bulk-fetch-headers(>1000)" });
+                for k in 0..n {
+                    let mut b = [if is_tx { 0x7eu8 } else { 0x5eu8 }; 32];
+                    b[0] = k as u8;
+                    b[1] = (k >> 8) as u8;
+                    b[2] = case.chain.seed as u8;
+                    let h: Byte32 = b.pack();
+                    let v: Value = if is_tx {
+                        serde_json::to_value(&sim.w.tx_rpc().fetch_transaction(h.unpack()).map_err(|e| Failure::new("rpc-error", format!("{:?}", e)))?).unwrap()
+                    } else {
+                        serde_json::to_value(&sim.w.chain_rpc().fetch_header(h.unpack()).map_err(|e| Failure::new("rpc-error", format!("{:?}", e)))?).unwrap()
+                    };
+                    let st = parse_status(&v);
+                    let t = tracks.entry(h.as_slice().to_vec()).or_insert(Track { last: None, missing_reported: false, is_tx, bulk: true });
+                    check_transition(t, &st, step, "bulk fetch")?;
+                    t.last = Some(st);
+                    t.missing_reported = false;
+                }
+            }
             let in_flight_fetch = |sim: &Sim, p: PeerIndex| -> bool {
                 sim.w.c().peers.get_peer(&p).map(|x| x.get_blocks_proof_request().map(|r| !r.should_get_blocks()).unwrap_or(false) || x.get_txs_proof_request().is_some()).unwrap_or(false)
             };
@@ -238,7 +267,7 @@ fn run_inner(case: &Case, obs: &mut Obs) -> Result<(), Failure> {
                     })
                     .unwrap();
                     let st = parse_status(&v);
-                    let t = tracks.entry(h.as_slice().to_vec()).or_insert(Track { last: None, missing_reported: false, is_tx: false });
+                    let t = tracks.entry(h.as_slice().to_vec()).or_insert(Track { last: None, missing_reported: false, is_tx: false, bulk: false });
                     check_transition(t, &st, step, &format!("fetch_header {:#x}", h))?;
                     if st == St::Fetched {
                         // byte-identical to a real header
@@ -270,7 +299,7 @@ fn run_inner(case: &Case, obs: &mut Obs) -> Result<(), Failure> {
                     };
                     if is_fetch {
                         let st = parse_status(&v);
-                        let t = tracks.entry(h.as_slice().to_vec()).or_insert(Track { last: None, missing_reported: false, is_tx: true });
+                        let t = tracks.entry(h.as_slice().to_vec()).or_insert(Track { last: None, missing_reported: false, is_tx: true, bulk: false });
                         check_transition(t, &st, step, &format!("fetch_transaction {:#x}", h))?;
                         t.last = Some(st);
                         t.missing_reported = false;
@@ -458,6 +487,26 @@ fn run_inner(case: &Case, obs: &mut Obs) -> Result<(), Failure> {
                     sim.w.chains[m].number_of(&hb).map(|n| n < stored_tip).unwrap_or(false)
                 };
                 if !on_chain {
+                    if t.bulk {
+                        // a non-existent hash: after the fair drain every honest proven peer which was asked has reported it
+                        // missing, so the entry may not still claim that a request is in flight
+                        let v = if t.is_tx {
+                            serde_json::to_value(&sim.w.tx_rpc().fetch_transaction(hb.unpack()).map_err(|e| Failure::new("rpc-error", format!("{:?}", e)))?).unwrap()
+                        } else {
+                            serde_json::to_value(&sim.w.chain_rpc().fetch_header(hb.unpack()).map_err(|e| Failure::new("rpc-error", format!("{:?}", e)))?).unwrap()
+                        };
+                        if let St::Fetching(_) = parse_status(&v) {
+                            let asked = sim.w.connected_peers().iter().any(|p| {
+                                sim.w.c().peers.get_peer(&p.index).map(|x| {
+                                    x.get_blocks_proof_request().map(|r| r.block_hashes().into_iter().any(|y| y.pack() == hb)).unwrap_or(false)
+                                        || x.get_txs_proof_request().map(|r| r.tx_hashes().into_iter().any(|y| y.pack() == hb)).unwrap_or(false)
+                                }).unwrap_or(false)
+                            });
+                            if !asked {
+                                return finish(tolerate(obs, Failure::new("fetch-lost/stuck-in-fetching", format!("{} {:#x} (one of more than 1000 requested at once): still 'fetching' after a fair drain although no connected peer has a request for it", if t.is_tx { "transaction" } else { "header" }, hb))));
+                            }
+                        }
+                    }
                     continue;
                 }
                 let v = if t.is_tx {
